@@ -130,10 +130,38 @@ def check(ctx, rep: Report):
     # ---- WHO
     rep.rules["C16.WHO"] = "class-state writes (setattr/assign/del on spec_cls, __annotations__ stores) only at enumerated sites with their guards"
     nsites = 0
+    from .base import static_callees
+    callers = {}
+    for fi in ctx.p.iter_functions():
+        if not fi.is_lambda:
+            for node, g in static_callees(ctx.p, fi):
+                callers.setdefault(g.qualname, []).append((fi, node))
+
+    def class_valued(fi):
+        """Local names of fi that denote classes (flow-insensitive): conventional parameter names, parameters
+        annotated type/Type, results of type(x) / x.__class__, loop variables over an MRO / __bases__."""
+        out = set()
+        a = fi.node.args
+        for p_ in a.posonlyargs + a.args + a.kwonlyargs:
+            ann = ast.unparse(p_.annotation) if p_.annotation is not None else ""
+            if p_.arg in ("spec_cls", "cls", "owner", "klass", "objtype") or ann in ("type", "Type", "typing.Type") or ann.startswith("Type["):
+                out.add(p_.arg)
+        for n in walk_own(fi.node):
+            if isinstance(n, ast.Assign) and len(n.targets) == 1 and isinstance(n.targets[0], ast.Name):
+                v = ast.unparse(n.value)
+                if (isinstance(n.value, ast.Call) and ast.unparse(n.value.func) == "type" and len(n.value.args) == 1) or v.endswith(".__class__"):
+                    out.add(n.targets[0].id)
+            if isinstance(n, ast.For) and isinstance(n.target, ast.Name):
+                it = ast.unparse(n.iter)
+                if ".mro()" in it or "__mro__" in it or "__bases__" in it:
+                    out.add(n.target.id)
+        return out
+
     for fi in ctx.p.iter_functions():
         if fi.is_lambda or not fi.module.name.startswith(ctx.p.package):
             continue
         short = fi.qualname.split(":")[-1].split("#")[0]
+        cls_names = class_valued(fi)
         for n in walk_own(fi.node):
             tgt = None
             if isinstance(n, (ast.Assign, ast.Delete, ast.AugAssign)):
@@ -144,7 +172,7 @@ def check(ctx, rep: Report):
                         tgt = s
             elif isinstance(n, ast.Call) and ast.unparse(n.func) in ("setattr", "delattr") and n.args:
                 a0 = ast.unparse(n.args[0])
-                if a0 in ("spec_cls", "owner", "cls", "klass", "parent") or a0.startswith("self.spec_cls"):
+                if a0 in cls_names or a0.startswith("self.spec_cls") or a0.startswith("self.owner"):
                     tgt = ast.unparse(n)
             if tgt is None:
                 continue
@@ -158,6 +186,24 @@ def check(ctx, rep: Report):
                             continue
                         match = (reason, guard)
                         break
+            if match is None and short.split(".")[-1].startswith("_") and not short.split(".")[-1].startswith("__"):
+                # a private helper extracted from an enumerated site: every caller must be that site, under its guard
+                cs = callers.get(fi.qualname, [])
+                entries = []
+                for cfi, call in cs:
+                    cshort = cfi.qualname.split(":")[-1].split("#")[0]
+                    e = [(reason, guard) for (fn_suffix, pat), (reason, guard) in WHO_ALLOWED.items()
+                         if (cshort == fn_suffix or cshort.endswith("." + fn_suffix)) and pat.split("(")[0] == tgt.split("(")[0]]
+                    if not e:
+                        entries = []
+                        break
+                    g_ = e[0][1]
+                    if g_ and g_ not in " && ".join(_guards_of(cfi.node, call)):
+                        entries = []
+                        break
+                    entries.append(e[0])
+                if cs and entries:
+                    match = (entries[0][0] + " (through a private helper)", None)
             ok = match is not None
             detail = ""
             if ok and match[1]:
